@@ -30,11 +30,11 @@ import (
 )
 
 type c16Scn struct {
-	Kind       string `json:"kind"` // reconnect | takeover | stale-delete-event | admin-delete | broker-closed-predecessor | slow-disconnect-pipeline | chain
+	Kind       string `json:"kind"` // reconnect | takeover | stale-delete-event | admin-delete | broker-closed-predecessor | slow-disconnect-pipeline | reconnect-during-teardown | chain
 	OldClean   bool   `json:"old_clean_session"`
 	NewClean   bool   `json:"new_clean_session"`
 	End        string `json:"old_connection_ends_by"` // disconnect | drop | keepalive
-	Point      int    `json:"old_teardown_point"`     // 0 before new CONNECT, 1 after CONNACK, 2 after SUBSCRIBE, 3 after first delivery, 4 never, 5 broker keep-alive deadline
+	Point      int    `json:"old_teardown_point"`     // 0 before new CONNECT, 1 after CONNACK, 2 after SUBSCRIBE, 3 after first delivery, 4 never, 5 broker keep-alive deadline (kind reconnect-during-teardown: the teardown STARTS before the new CONNECT and is held; 1..3 = where it is released and completes)
 	SameFilter bool   `json:"new_subscription_equals_old"`
 	M1QoS      int    `json:"qos_of_probe_on_old_filter"`
 	Admin      bool   `json:"admin_delete_at_end"`
@@ -79,6 +79,9 @@ func c16cp(clean bool) string {
 
 // phase is the coarse position of the old connection's teardown relative to the new CONNECT.
 func (s c16Scn) phase() string {
+	if s.Kind == "reconnect-during-teardown" {
+		return "old-teardown-in-progress-at-new-connect"
+	}
 	switch s.Point {
 	case 0:
 		return "old-torn-down-before-new-connect"
@@ -156,6 +159,20 @@ func c16scenarios() []c16Scn {
 		for _, nc := range bools {
 			for _, via := range []string{"admin-delete", "takeover"} {
 				out = append(out, c16Scn{Kind: "slow-disconnect-pipeline", OldClean: oc, NewClean: nc, Via: via, Point: 2})
+			}
+		}
+	}
+	// The old connection ends BY ITSELF (DISCONNECT packet / EOF) and its own teardown is still in
+	// progress when the same client id connects again: the teardown is held inside the Disconnect
+	// pipeline that Client.close() runs (the stage of the teardown at which the broker runs it is
+	// observed from the books) and is released after the new CONNACK / SUBSCRIBE / first delivery.
+	// (new filter = old filter or not: different in the first pass, drawn in the repeats)
+	for _, oc := range bools {
+		for _, nc := range bools {
+			for _, end := range []string{"disconnect", "drop"} {
+				for pt := 1; pt <= 3; pt++ {
+					out = append(out, c16Scn{Kind: "reconnect-during-teardown", OldClean: oc, NewClean: nc, End: end, Point: pt})
+				}
 			}
 		}
 	}
@@ -283,8 +300,8 @@ func TestVerif_C16_Sessions(t *testing.T) {
 	scns := c16scenarios()
 	nPair := len(scns)
 	scns = append(scns, c16chains()...)
-	r.Rule(fmt.Sprintf("%d scripted schedules for one client id. (a) %d two-connection schedules: {cleanSession old} x {cleanSession new} x {new filter = old filter or not} x {plain reconnect after DISCONNECT / after a silent drop; takeover with the old connection's end (FIN through the relay, or DISCONNECT packet) placed after the new CONNACK / after the new SUBSCRIBE / after the first delivery / never; takeover with the old connection ended by the broker's keep-alive deadline; admin delete; session-delete watch event delayed past the reconnect; predecessor ended BY THE BROKER: its session is deleted through the admin endpoint (delete event delivered and processed, connection closed and deregistered, socket still open so that its read loop lingers), then the new CONNECT (not a takeover for the broker) and the old socket's end (FIN or DISCONNECT packet) placed after the new CONNACK / SUBSCRIBE / first delivery; SLOW DISCONNECT PIPELINE: a broker whose Connect and Disconnect pipelines are handlers the harness can hold open; the old connection is ended BY THE BROKER (admin delete of its session: delete event handed to the watch loop / takeover by the new CONNECT) and the Disconnect pipeline that Client.close() runs is held open while the same client id connects (admin delete: the new CONNECT is sent and its Connect pipeline has been entered while the old Disconnect pipeline is still running; if the broker's registry lock is free meanwhile the CONNACK and the SUBSCRIBE are completed before the release, otherwise the CONNECT is serialised behind the pipeline) and subscribes (takeover: SUBSCRIBE and first delivery while the superseded connection's Disconnect pipeline runs), then the pipeline is released, the broker's handling finishes, the old socket ends (FIN or DISCONNECT packet, drawn) and the survivor is judged as in every schedule}, a random QoS for the probe on the old filter; after the old teardown has completed a fresh message per filter is published. (b) %d longer session histories (chains): every sequence of three connections {cleanSession}^3 x {ends by DISCONNECT, ends by silent drop, is taken over while open}^2, each connection subscribing a filter of its own; the end of a superseded connection is placed at a drawn point (after the successor's CONNACK / SUBSCRIBE / first judgement / never), and for a taken-over first connection additionally, enumerated, only after the successor's own end (before the next CONNECT) and after the successor's end plus the next connection's SUBSCRIBE; after such a late teardown the stored session of the latest cleanSession=false connection must still hold its subscriptions; additionally, where the first two connections are both cleanSession=false, every such history with the middle connection also UNSUBSCRIBING the first connection's filter after subscribing its own (after a DISCONNECT/drop of the first connection the middle one's session is rebuilt from the stored copy, is changed by an addition and a removal, and is rebuilt from the stored copy again by the third connection, whose expected set differs from what the first connection stored); in the repeats a fourth connection with drawn parameters is inserted at a drawn position in half of the cases and every later connection unsubscribes the oldest inherited filter with probability 1/3; EVERY connection of a chain is judged (books + one fresh message per filter of the history, PINGRESP barrier) against a model of the property sentence: cleanSession=true discards everything earlier, cleanSession=false keeps what the previous session held and what the connection subscribed itself and does not get back what a previous cleanSession=false connection unsubscribed, filters held by a cleanSession=true predecessor of a cleanSession=false connection are left open. All repeated (quick 3x, thorough 200x) with seeded jitter between the steps; distinct = (schedule, symptoms)", len(scns), nPair, len(scns)-nPair))
-	r.Assume("one client id, keepalive 0 except in the keep-alive schedules, no will; delete-watch events are delivered promptly (right after the teardown that caused them, before the next step) except in the stale-delete-event schedules; old cleanSession=true followed by new cleanSession=false: whether the old subscription comes back is left open (counted, not judged); new cleanSession=true while the superseded connection has not been torn down yet: delivery on the old filter is counted, not judged; predecessor ended by an admin delete: whether a cleanSession=false successor gets the deleted session's filter is left open (counted), the same holds after the admin delete in the slow-Disconnect-pipeline schedules; a pipeline of the harness is held only between two observed steps and is always released (also when the case ends early); while the Disconnect pipeline is held the harness does not call anything that needs the broker's registry lock (it only probes it with TryRLock to decide whether the CONNACK can be awaited before the release; not a verdict); the broker's other own closes are not generated (the keep-alive deadline ends the read loop itself so nothing lingers; a failed socket write and the watcher re-sync leave the connection registered, which is the takeover schedule); chains: a connection ends only after every Session.store() hand-over has finished or has been PROVEN unable to finish ever (a goroutine created by Session.store still parked in its channel send after a barrier value, sent later through the store loop's channel, has been taken: blocked senders are served FIFO, so it waits on a channel the store loop does not read; no clock involved) - in that case the stored copy is not judged any more, the history simply goes on and the next cleanSession=false reconnect is judged as the property says (signature suffix session-never-persisted-again); an unsubscribed filter must stay silent at later connections only once every earlier connection has been torn down, in the unsubscribing connection itself it is only counted; a superseded connection whose teardown point is 'never' is torn down only after the history has been judged; a discarded filter must stay silent only once every earlier connection has been torn down")
+	r.Rule(fmt.Sprintf("%d scripted schedules for one client id. (a) %d two-connection schedules: {cleanSession old} x {cleanSession new} x {new filter = old filter or not} x {plain reconnect after DISCONNECT / after a silent drop; takeover with the old connection's end (FIN through the relay, or DISCONNECT packet) placed after the new CONNACK / after the new SUBSCRIBE / after the first delivery / never; takeover with the old connection ended by the broker's keep-alive deadline; admin delete; session-delete watch event delayed past the reconnect; predecessor ended BY THE BROKER: its session is deleted through the admin endpoint (delete event delivered and processed, connection closed and deregistered, socket still open so that its read loop lingers), then the new CONNECT (not a takeover for the broker) and the old socket's end (FIN or DISCONNECT packet) placed after the new CONNACK / SUBSCRIBE / first delivery; SLOW DISCONNECT PIPELINE: a broker whose Connect and Disconnect pipelines are handlers the harness can hold open; the old connection is ended BY THE BROKER (admin delete of its session: delete event handed to the watch loop / takeover by the new CONNECT) and the Disconnect pipeline that Client.close() runs is held open while the same client id connects (admin delete: the new CONNECT is sent and its Connect pipeline has been entered while the old Disconnect pipeline is still running; if the broker's registry lock is free meanwhile the CONNACK and the SUBSCRIBE are completed before the release, otherwise the CONNECT is serialised behind the pipeline) and subscribes (takeover: SUBSCRIBE and first delivery while the superseded connection's Disconnect pipeline runs), then the pipeline is released, the broker's handling finishes, the old socket ends (FIN or DISCONNECT packet, drawn) and the survivor is judged as in every schedule; RECONNECT WHILE THE OLD CONNECTION'S OWN TEARDOWN IS IN PROGRESS: on the same gated broker the old connection ends by itself (DISCONNECT packet or EOF through the relay), the deferred teardown of its read loop runs up to the Disconnect pipeline that Client.close() runs and is held there by the harness (the stage of the teardown is observed from the books: session gone from the session map, old filter gone from the topic manager, connection still registered), a delete event that teardown issued (cleanSession=true) is delivered while it is held, the same client id sends its CONNECT and gets its CONNACK while the teardown is still held, and the pipeline is released (the teardown then completes: broker closes its side) after the new CONNACK / after the new SUBSCRIBE / after the first delivery, {cleanSession old} x {cleanSession new} x {DISCONNECT, drop} x {3 release points}, new filter different from the old one in the first pass (drawn 1/3 equal in the repeats), survivor judged as in every schedule}, a random QoS for the probe on the old filter; after the old teardown has completed a fresh message per filter is published. (b) %d longer session histories (chains): every sequence of three connections {cleanSession}^3 x {ends by DISCONNECT, ends by silent drop, is taken over while open}^2, each connection subscribing a filter of its own; the end of a superseded connection is placed at a drawn point (after the successor's CONNACK / SUBSCRIBE / first judgement / never), and for a taken-over first connection additionally, enumerated, only after the successor's own end (before the next CONNECT) and after the successor's end plus the next connection's SUBSCRIBE; after such a late teardown the stored session of the latest cleanSession=false connection must still hold its subscriptions; additionally, where the first two connections are both cleanSession=false, every such history with the middle connection also UNSUBSCRIBING the first connection's filter after subscribing its own (after a DISCONNECT/drop of the first connection the middle one's session is rebuilt from the stored copy, is changed by an addition and a removal, and is rebuilt from the stored copy again by the third connection, whose expected set differs from what the first connection stored); in the repeats a fourth connection with drawn parameters is inserted at a drawn position in half of the cases and every later connection unsubscribes the oldest inherited filter with probability 1/3; EVERY connection of a chain is judged (books + one fresh message per filter of the history, PINGRESP barrier) against a model of the property sentence: cleanSession=true discards everything earlier, cleanSession=false keeps what the previous session held and what the connection subscribed itself and does not get back what a previous cleanSession=false connection unsubscribed, filters held by a cleanSession=true predecessor of a cleanSession=false connection are left open. All repeated (quick 3x, thorough 200x) with seeded jitter between the steps; distinct = (schedule, symptoms)", len(scns), nPair, len(scns)-nPair))
+	r.Assume("one client id, keepalive 0 except in the keep-alive schedules, no will; delete-watch events are delivered promptly (right after the teardown that caused them, before the next step) except in the stale-delete-event schedules; old cleanSession=true followed by new cleanSession=false: whether the old subscription comes back is left open (counted, not judged); new cleanSession=true while the superseded connection has not been torn down yet: delivery on the old filter is counted, not judged; predecessor ended by an admin delete: whether a cleanSession=false successor gets the deleted session's filter is left open (counted), the same holds after the admin delete in the slow-Disconnect-pipeline schedules; a pipeline of the harness is held only between two observed steps and is always released (also when the case ends early); while the Disconnect pipeline is held the harness does not call anything that needs the broker's registry lock (it only probes it with TryRLock to decide whether the CONNACK can be awaited before the release; not a verdict); in the reconnect-during-teardown schedules the registry is read while the pipeline is held only through TryRLock (a teardown that held the registry lock there would make the case skipped and counted, the run inconclusive, never a violation), and the stage at which the teardown is held is whatever stage the broker runs its Disconnect pipeline at (observed and Required, not forced: other stages of a teardown cannot be held with the means the broker offers); the broker's other own closes are not generated (the keep-alive deadline ends the read loop itself so nothing lingers; a failed socket write and the watcher re-sync leave the connection registered, which is the takeover schedule); chains: a connection ends only after every Session.store() hand-over has finished or has been PROVEN unable to finish ever (a goroutine created by Session.store still parked in its channel send after a barrier value, sent later through the store loop's channel, has been taken: blocked senders are served FIFO, so it waits on a channel the store loop does not read; no clock involved) - in that case the stored copy is not judged any more, the history simply goes on and the next cleanSession=false reconnect is judged as the property says (signature suffix session-never-persisted-again); an unsubscribed filter must stay silent at later connections only once every earlier connection has been torn down, in the unsubscribing connection itself it is only counted; a superseded connection whose teardown point is 'never' is torn down only after the history has been judged; a discarded filter must stay silent only once every earlier connection has been torn down")
 	reps := r.N(3, 200)
 	n := len(scns) * reps
 	for i := 0; i < n; i++ {
@@ -314,6 +331,10 @@ func TestVerif_C16_Sessions(t *testing.T) {
 		if s.Kind == "takeover" || s.Kind == "reconnect" {
 			s.Admin = rng.Intn(4) == 0
 		}
+		if s.Kind == "reconnect-during-teardown" {
+			s.SameFilter = s.Jitter && rng.Intn(3) == 0
+			s.Admin = rng.Intn(4) == 0
+		}
 		r.Case(i, s)
 		c16run(r, rng, s, i < len(scns))
 	}
@@ -334,6 +355,17 @@ func TestVerif_C16_Sessions(t *testing.T) {
 	r.Require("slow_disconnect_pipeline:takeover_connection_subscribed_while_predecessors_disconnect_pipeline_was_running", 1)
 	r.Require("slow_disconnect_pipeline:survivor_judged_after_release_and_old_teardown", 1)
 	r.Require("slow_disconnect_pipeline:survivor_delivery_and_qos1_redelivery_seen_after_release_and_old_teardown", 1)
+	// reconnect while the old connection's own teardown is in progress (held in its Disconnect pipeline)
+	r.Require("reconnect_during_teardown:old_teardown_held_after_local_session_and_topic_cleanup_before_deregistration", 1)
+	r.Require("reconnect_during_teardown:reconnected_while_old_teardown_in_progress", 1)
+	r.Require("reconnect_during_teardown:survivor_judged_after_release_and_old_teardown", 1)
+	r.Require("reconnect_during_teardown:survivor_judged:old=p,new=p", 1)
+	r.Require("reconnect_during_teardown:survivor_judged:old=p,new=c", 1)
+	r.Require("reconnect_during_teardown:survivor_judged:old=c,new=p", 1)
+	r.Require("reconnect_during_teardown:survivor_judged:old=c,new=c", 1)
+	r.Require("reconnect_during_teardown:previous_subscription_given_back_to_persistent_reconnect", 1)
+	r.Require("reconnect_during_teardown:clean_session_reconnect_old_filter_silent", 1)
+	r.Require("reconnect_during_teardown:survivor_delivery_and_qos1_redelivery_seen_after_release_and_old_teardown", 1)
 	// chains: the monitor must have judged reconnects deep in a history, for every kind of clause
 	r.Require("chain_connections_judged", 1)
 	r.Require("chain_third_or_later_connection_judged", 1)
@@ -366,7 +398,7 @@ func c16run(r *kit.Run, rng *rand.Rand, s c16Scn, first bool) {
 	var rb *c15rigBroker
 	var conGate, disGate *c16gate // only with the gated pipelines
 	var err error
-	if s.Kind == "slow-disconnect-pipeline" {
+	if s.Kind == "slow-disconnect-pipeline" || s.Kind == "reconnect-during-teardown" {
 		rb, conGate, disGate, err = c16newGatedBroker()
 	} else {
 		rb, err = c15rigNewBroker(c15rigBrokerOpts{})
@@ -418,6 +450,9 @@ func c16run(r *kit.Run, rng *rand.Rand, s c16Scn, first bool) {
 			if len(st.stuck) > 0 {
 				m["store_hand_overs_proven_stuck_for_ever(goroutine states)"] = st.stuck
 			}
+			if s.Kind == "reconnect-during-teardown" {
+				m["teardown_point"] = "started before the new CONNECT (held in the Disconnect pipeline), released and completed " + c16pointName[s.Point]
+			}
 			if b != nil {
 				m["new_connection_log"] = b.events()
 			}
@@ -428,9 +463,19 @@ func c16run(r *kit.Run, rng *rand.Rand, s c16Scn, first bool) {
 			dereg = dereg || c16famDeregistered[sy]
 			gone = gone || c16famSessionGone[sy]
 		}
+		onlyPrev := gone
+		for _, sy := range symptoms {
+			if c16famSessionGone[sy] && !strings.HasPrefix(sy, "previous-subscription-") {
+				onlyPrev = false
+			}
+		}
 		switch {
 		case dereg:
 			r.Violation(s.sig("survivor-deregistered-or-disconnected"), base())
+		case gone && onlyPrev && s.Kind == "reconnect-during-teardown":
+			// the survivor's session, its own subscription and its registration are all right; only the
+			// subscriptions of the previous session were not given back (routing and/or delivery)
+			r.Violation(s.sig("previous-subscription-not-given-back"), base())
 		case gone:
 			r.Violation(s.sig("survivor-session-or-subscriptions-removed"), base())
 		}
@@ -548,6 +593,20 @@ func c16run(r *kit.Run, rng *rand.Rand, s c16Scn, first bool) {
 		return
 	}
 	r.Count("sanity_delivery_to_old_connection", 1)
+	// Second barrier: the raw client wrote its PUBACK for that message before it read the PINGRESP
+	// above, so the PUBACK is ahead of this PINGREQ on the wire and the broker has PROCESSED it when
+	// the PINGRESP is back.  Without it a PUBACK still in flight wakes the old read loop at an
+	// arbitrary later step: after a broker-initiated close (admin delete) the loop then ends at once
+	// instead of lingering, and the teardown it runs (and the session delete it may issue) lands at
+	// a point of the schedule the harness did not choose.
+	if st := a.ping(); st != "ok" {
+		if st == "watchdog" {
+			inc("watchdog: PINGRESP")
+		} else if !kaEarly() {
+			bad("old-connection-closed-by-broker", nil)
+		}
+		return
+	}
 	nStuck, settled := st.settle()
 	if !settled {
 		inc("watchdog: session store")
@@ -650,37 +709,37 @@ func c16run(r *kit.Run, rng *rand.Rand, s c16Scn, first bool) {
 	// session / takeover) and the Disconnect pipeline run by Client.close() is held open by the
 	// harness while the same client id connects again and subscribes; it is released afterwards and
 	// only then the old socket ends.  The survivor is judged like in every other schedule.
+	subscribeNew := func() bool {
+		if st := b.subscribe([]string{f2}, []byte{1}); st != "ok" {
+			if st == "watchdog" {
+				inc("watchdog: new SUBACK")
+			} else {
+				bad("survivor-connection-closed", map[string]interface{}{"at": "SUBSCRIBE", "state": st})
+			}
+			return false
+		}
+		step("new: SUBSCRIBE %s", f2)
+		return true
+	}
+	firstDelivery := func() bool {
+		pl, ok := inject(t2, 1)
+		if !ok {
+			return false
+		}
+		got, st := has(b, pl)
+		switch {
+		case st == "watchdog":
+			return false
+		case st != "ok":
+			dead = true
+		case !got:
+			bad("new-subscription-delivery-missed", map[string]interface{}{"at": "first delivery", "payload": pl})
+		default:
+			step("new: first delivery on %s received", t2)
+		}
+		return true
+	}
 	slowPipeline := func() bool {
-		subscribeNew := func() bool {
-			if st := b.subscribe([]string{f2}, []byte{1}); st != "ok" {
-				if st == "watchdog" {
-					inc("watchdog: new SUBACK")
-				} else {
-					bad("survivor-connection-closed", map[string]interface{}{"at": "SUBSCRIBE", "state": st})
-				}
-				return false
-			}
-			step("new: SUBSCRIBE %s", f2)
-			return true
-		}
-		firstDelivery := func() bool {
-			pl, ok := inject(t2, 1)
-			if !ok {
-				return false
-			}
-			got, st := has(b, pl)
-			switch {
-			case st == "watchdog":
-				return false
-			case st != "ok":
-				dead = true
-			case !got:
-				bad("new-subscription-delivery-missed", map[string]interface{}{"at": "first delivery", "payload": pl})
-			default:
-				step("new: first delivery on %s received", t2)
-			}
-			return true
-		}
 		var err error
 		jit()
 		disGate.arm()
@@ -803,8 +862,139 @@ func c16run(r *kit.Run, rng *rand.Rand, s c16Scn, first bool) {
 		// only now the old socket ends
 		return endOld()
 	}
+	// ---- reconnect WHILE the old connection's own teardown is in progress: the old connection ends
+	// by itself (DISCONNECT packet / EOF), its read loop's deferred teardown runs and is held inside
+	// the Disconnect pipeline that Client.close() runs (gated handler), i.e. at whatever stage of the
+	// teardown the broker runs that pipeline; the stage is OBSERVED from the books (session map,
+	// topic manager, registry), not assumed.  The same client id connects meanwhile; the pipeline is
+	// released after the new CONNACK / SUBSCRIBE / first delivery, the teardown is observed complete,
+	// and the survivor is judged like in every other schedule.
+	duringTeardown := func() bool {
+		var err error
+		jit()
+		disGate.arm()
+		switch s.End {
+		case "disconnect":
+			a.sendDisconnect()
+			step("old: DISCONNECT packet reaches the broker")
+		case "drop":
+			la.cutBrokerSide()
+			step("old: broker's read on the old connection sees EOF")
+		}
+		if !disGate.wait(func(e, _ int) bool { return e >= 1 }) {
+			inc("watchdog: Disconnect pipeline not entered by the old connection's teardown")
+			return false
+		}
+		select {
+		case <-la.upClosed:
+			// cannot be: the teardown is parked in the harness' handler
+			inc("old connection closed by the broker although its teardown is held")
+			return false
+		default:
+		}
+		// which stage of the teardown is this?  (books only; the registry is read only if its lock is free)
+		sessGone := rb.sessionInMap(cid) == nil
+		routed, _ := rb.routes(t1, cid)
+		regState := "registry-lock-held"
+		for i := 0; i < 50 && regState == "registry-lock-held"; i++ {
+			if rb.b.TryRLock() {
+				if c := rb.b.clients[cid]; c != nil {
+					regState = "still-registered"
+				} else {
+					regState = "deregistered"
+				}
+				rb.b.RUnlock()
+			} else {
+				time.Sleep(200 * time.Microsecond)
+			}
+		}
+		stage := fmt.Sprintf("session-in-map=%v,old-filter-routed=%v,%s", !sessGone, routed, regState)
+		r.Count("reconnect_during_teardown:teardown_held_at_stage:"+stage, 1)
+		if sessGone && !routed && regState == "still-registered" {
+			r.Count("reconnect_during_teardown:old_teardown_held_after_local_session_and_topic_cleanup_before_deregistration", 1)
+		}
+		step("old: its own teardown is in progress and is held inside the Disconnect pipeline (stage by the books: %s)", stage)
+		if regState == "registry-lock-held" {
+			// the CONNECT could not be answered before the release: this class is not established here
+			r.Count("reconnect_during_teardown:registry_lock_held_by_the_teardown(case skipped)", 1)
+			return false
+		}
+		if rb.store.heldCount() > 0 {
+			// the session delete the teardown issued (cleanSession=true): its watch event is delivered
+			// promptly, as in every schedule but stale-delete-event, i.e. while the teardown is still held
+			n, ok := rb.flushDeletes()
+			if !ok {
+				inc("watchdog: delete-watch flush")
+				return false
+			}
+			step("delete-watch: %d event(s) delivered and processed while the old teardown is held", n)
+			r.Count("delete_watch_events_delivered_promptly", int64(n))
+		}
+		release := func() bool {
+			jit()
+			disGate.release()
+			if !disGate.wait(func(e, x int) bool { return x >= e }) {
+				inc("watchdog: Disconnect pipeline did not return")
+				return false
+			}
+			step("old: Disconnect pipeline released")
+			if !la.brokerClosed() {
+				inc("watchdog: old connection teardown")
+				return false
+			}
+			oldDown = true
+			r.Count("old_teardown_observed_complete", 1)
+			step("old: teardown complete (broker closed its side)")
+			n, ok := rb.flushDeletes()
+			if !ok {
+				inc("watchdog: delete-watch flush")
+				return false
+			}
+			if n > 0 {
+				step("delete-watch: %d event(s) delivered and processed", n)
+				r.Count("delete_watch_events_delivered_promptly", int64(n))
+			}
+			jit()
+			return true
+		}
+		jit()
+		b, lb, err = relay.dial(cid)
+		if err != nil {
+			inc("dial: " + err.Error())
+			return false
+		}
+		if rc, st := b.connect(s.NewClean, 0); st == "watchdog" {
+			inc("watchdog: CONNACK while the old teardown is held")
+			return false
+		} else if st != "ok" || rc != 0 {
+			bad("new-connection-refused", map[string]interface{}{"state": st, "rc": rc})
+			return false
+		}
+		step("new: CONNECT clean=%v accepted while the old connection's teardown is still in progress", s.NewClean)
+		r.Count("reconnect_during_teardown:reconnected_while_old_teardown_in_progress", 1)
+		if s.Point == 1 && !release() {
+			return false
+		}
+		if !subscribeNew() {
+			return false
+		}
+		if s.Point == 2 && !release() {
+			return false
+		}
+		if !firstDelivery() {
+			return false
+		}
+		if s.Point == 3 && !release() {
+			return false
+		}
+		return true
+	}
 	if s.Kind == "slow-disconnect-pipeline" {
 		if !slowPipeline() {
+			return
+		}
+	} else if s.Kind == "reconnect-during-teardown" {
+		if !duringTeardown() {
 			return
 		}
 	} else {
@@ -885,6 +1075,10 @@ func c16run(r *kit.Run, rng *rand.Rand, s c16Scn, first bool) {
 	}
 	if s.Kind == "slow-disconnect-pipeline" && oldDown {
 		r.Count("slow_disconnect_pipeline:survivor_judged_after_release_and_old_teardown", 1)
+	}
+	if s.Kind == "reconnect-during-teardown" && oldDown {
+		r.Count("reconnect_during_teardown:survivor_judged_after_release_and_old_teardown", 1)
+		r.Count(fmt.Sprintf("reconnect_during_teardown:survivor_judged:old=%s,new=%s", c16cp(s.OldClean), c16cp(s.NewClean)), 1)
 	}
 	reg, sess := rb.registered(cid)
 	switch {
@@ -972,6 +1166,9 @@ func c16run(r *kit.Run, rng *rand.Rand, s c16Scn, first bool) {
 				if s.Kind == "slow-disconnect-pipeline" && oldDown {
 					r.Count("slow_disconnect_pipeline:survivor_delivery_and_qos1_redelivery_seen_after_release_and_old_teardown", 1)
 				}
+				if s.Kind == "reconnect-during-teardown" && oldDown {
+					r.Count("reconnect_during_teardown:survivor_delivery_and_qos1_redelivery_seen_after_release_and_old_teardown", 1)
+				}
 			}
 			_, ids := b.copies(pl)
 			if len(ids) > 0 {
@@ -996,12 +1193,18 @@ func c16run(r *kit.Run, rng *rand.Rand, s c16Scn, first bool) {
 			bad("previous-subscription-delivery-missed", map[string]interface{}{"payload": pl, "qos": s.M1QoS})
 		case expectPrev:
 			r.Count("previous_subscription_restored", 1)
+			if s.Kind == "reconnect-during-teardown" && oldDown {
+				r.Count("reconnect_during_teardown:previous_subscription_given_back_to_persistent_reconnect", 1)
+			}
 		case s.NewClean && got && oldDown:
 			bad("clean-session-still-gets-previous-subscription", map[string]interface{}{"payload": pl})
 		case s.NewClean && got:
 			r.Count("clean_session_got_old_filter_while_superseded_connection_not_torn_down(not judged)", 1)
 		case s.NewClean:
 			r.Count("clean_session_old_filter_silent", 1)
+			if s.Kind == "reconnect-during-teardown" && oldDown {
+				r.Count("reconnect_during_teardown:clean_session_reconnect_old_filter_silent", 1)
+			}
 		case s.Kind == "broker-closed-predecessor" && got:
 			r.Count("broker_closed_predecessor:persistent_successor_got_old_filter_of_admin_deleted_session(not judged)", 1)
 		case s.Kind == "broker-closed-predecessor":
